@@ -13,7 +13,7 @@ LEAN_MODULES = ["FimVerif.Proofs.C14"]
 P = "FimVerif.C14."
 THEOREMS = [P + t for t in (
     "merge_union", "provenance_exact", "delegations_keyed_by_adm", "delegations_step", "merge_comm_partial",
-    "merge_comm_counterexample", "unmerge_inverse", "unmerge_inverse_reachable", "merge_iteration_order_irrelevant", "unmerge_inverse_counterexample_edge",
+    "merge_comm_counterexample", "unmerge_inverse", "unmerge_inverse_reachable", "unmerge_total_on_reachable", "merge_iteration_order_irrelevant", "unmerge_inverse_counterexample_edge",
     "unmerge_inverse_counterexample_id", "rollback_restores", "merge_sources_untouched")] + [
     "FimVerif.Cbm.merge_step", "FimVerif.Cbm.merge_WF", "FimVerif.Cbm.unmerge_merge"]
 TRUSTED_BASE = [
@@ -26,6 +26,10 @@ TRUSTED_BASE = [
     "delegation details and all other property values are opaque strings in the model; Delegations.from_json/to_json is applied "
     "to the inputs by the harness first (C12's subject)",
     "harness/lib_cbm.py: NXCBM borrows the Neo4jCBMGraph methods and runs them on the NetworkX shared store",
+    "the iteration order of Python's set of common node ids is reproduced by the harness and handed to the driver (it only "
+    "matters for the state left by a merge that raises; theorem merge_iteration_order_irrelevant covers the successful case)",
+    "merge_sources_untouched holds by construction of the functional model; the clause is carried by the oracle (source snapshots "
+    "compared after every step) and by C04's frame theorem",
 ]
 ASSUMPTIONS = [
     "the CBM is only built through merge_adm / unmerge_adm / snapshot / rollback starting from an empty graph (every CBM node "
@@ -147,7 +151,7 @@ def corpus_cases():
     return out
 
 
-def gen_cases(ctx, tag, nfam, nhist, with_ads=True):
+def gen_cases(ctx, tag, nfam, nhist, with_ads=True, ads_perms=True):
     """[(family, ops)] - corpus first, then deterministic corner cases, then random."""
     rng = ctx.sub_rng(tag)
     cases = []
@@ -175,7 +179,7 @@ def gen_cases(ctx, tag, nfam, nhist, with_ads=True):
         ads = L.repo_ad_specs()
         fam = [ads[n] for n in L.ADS]
         perms = list(itertools.permutations(range(4)))
-        chosen = perms if ctx.thorough else [perms[0], perms[-1], perms[rng.randrange(1, 23)]]
+        chosen = [] if not ads_perms else perms if ctx.thorough else [perms[0], perms[rng.randrange(1, 24)]]
         for perm in chosen:
             cases.append((fam, [("merge", j) for j in perm]))
         cases.append((fam, [("merge", 0), ("merge", 3), ("snapshot",), ("merge", 1), ("unmerge", 3), ("merge", 2), ("rollback", 0),
@@ -566,7 +570,7 @@ def oracle(ctx, res, nfam=None, nhist=None):
     nfam = nfam or ctx.scale(40, 320)
     nhist = nhist or ctx.scale(100, 800)
     # 1. deterministic corpus / corner cases and random histories
-    for family, ops in gen_cases(ctx, "oracle-hist", 0, nhist, with_ads=True):
+    for family, ops in gen_cases(ctx, "oracle-hist", 0, nhist, with_ads=True, ads_perms=False):
         run_history(res, family, ops)
         res.count("history")
         if nontrivial(family, ops):
@@ -577,7 +581,7 @@ def oracle(ctx, res, nfam=None, nhist=None):
         k = 1 + i % 4
         fams.append(L.gen_family(rng, k) if i % 3 else [L.gen_raw(rng, "r%d" % j, ["n1", "n2", "n3", "n4", "n5"]) for j in range(k)])
     ads = L.repo_ad_specs(hist=res.count)
-    fams.append([ads[n] for n in L.ADS][:ctx.scale(3, 4)])
+    fams.append([ads[n] for n in L.ADS] if ctx.thorough else [ads["RENCI"], ads["Network"]])
     for fam in fams:
         check_permutations(res, fam)
         res.count("family:%d" % len(fam))
